@@ -4,7 +4,7 @@ MODULE = "RkVerif.Props.C11"
 DRIVER = "drv_c11"
 THOROUGH_MODULES = ["RkVerif.Model.C11", "RkVerif.Lemmas.C11"]
 
-MODES = {"u8": (1, 1), "u32": (4, 4), "r24": (24, 8)}   # element size, alignment
+MODES = {"u8": (1, 1), "u32": (4, 4), "r24": (24, 8), "tc": (8, 4)}   # element size, alignment ("tc": copies can be made to throw)
 HARNESSES = [dict(name="c11", src="harness/c11.cpp", repo_srcs=[], args=[m], mode=m) for m in MODES]
 
 NW, NB, ND = 6, 4, 3
@@ -180,7 +180,13 @@ def _wrapper_case(rng, mode):
             oas = [k for k in range(NW) if wk[k] == "oa"]
             j = rng.pick(oas) if oas and rng.chance(0.95) else rng.randrange(NW)
             n = rng.pick([0, 1, 2, 3, 4, 6, 9, 12])
-            c.append("oa_resize %d %d %d" % (j, n, rng.randrange(256)))
+            how = rng.random()
+            if how < 0.2 and wk[j] == "oa" and wn[j] > 0:
+                c.append("oa_resize_self %d %d %d" % (j, n, rng.randrange(wn[j])))
+            elif how < 0.4:
+                c.append("oa_resize_throw %d %d %d" % (j, n, rng.randrange(256)))
+            else:
+                c.append("oa_resize %d %d %d" % (j, n, rng.randrange(256)))
             if wk[j] == "oa":
                 wn[j] = n
             obs(j)
@@ -263,7 +269,7 @@ def gen_cases(rng, tier, h):
 
 
 _MUT = ("fa_assign_fail1", "fa_assign_fail2", "av_new", "oa_new", "fa_new", "fa_size", "fav_new", "av_set", "oa_assign", "fa_assign", "oa_reset", "av_reset",
-        "oa_resize", "copy", "assign", "destroy", "wset", "buf_set", "buf_free", "buf_new", "dv_new", "dv_reset", "dv_copy", "bb_free")
+        "oa_resize", "oa_resize_self", "oa_resize_throw", "copy", "assign", "destroy", "wset", "buf_set", "buf_free", "buf_new", "dv_new", "dv_reset", "dv_copy", "bb_free")
 
 
 def nontrivial(case):
